@@ -27,17 +27,20 @@ CONFIGS = [("synchronous", None), ("threads", 1), ("threads", 2), ("threads", 4)
 
 
 # ------------------------------------------------------------------ generator
-def gen_case(rng, mode=None, stochastic=None):
+def gen_case(rng, mode=None, stochastic=None, custom_kind=None):
     case = c05.gen_case(rng, mode=mode, with_dask=True,
                         flavour=rng.choice(["plain", "plain", "vectors", "two_models_same_arg", "same_model_two_groups",
                                             "field_vs_arg"]), max_runs=12)
     if case["mode"] == "custom":
         # the parallel path's own conversion of the table: single-placeholder lists and shifted column ranges
-        for p in case["params"]:
-            if p["width"] is not None and rng.random() < 0.3:
-                p["width"], p["decl"] = 1, ["_"]
+        custom_kind = custom_kind or rng.choice(["plain", "w1", "shift", "both"])
+        if custom_kind in ("w1", "both"):
+            cands = [p for p in case["params"] if p["key"].startswith("pipeline.")]
+            for p in cands:
+                if p is cands[0] or rng.random() < 0.3:
+                    p["width"], p["decl"], p["enabled"] = 1, ["_"], True
         case["table"] = c05.gen_table(rng, case["params"])
-        case["col_start"] = rng.choice([0, 0, 1, 2])
+        case["col_start"] = rng.choice([1, 2]) if custom_kind in ("shift", "both") else 0
     stochastic = rng.choice([None, None, "pipeline_seed", "model_seed"]) if stochastic is None else stochastic
     case["stochastic"] = stochastic or None
     case["seed"] = rng.randrange(1, 10000)
@@ -247,9 +250,13 @@ def run_calibration(case, scheduler, workers, chunk, parallel_islands):
 
 
 def gen_cal_case(rng):
+    islands = rng.choice([1, 2, 3])
+    # with two or more *connected* islands pygmo migrates individuals asynchronously between its own island threads:
+    # the outcome then differs between two identical runs (same scheduler, same seeds) — measured below, not compared
+    topology = rng.choice(["unconnected", "ring", "fully_connected"]) if islands == 1 else \
+        rng.choice(["unconnected", "unconnected", "unconnected", "ring", "fully_connected"])
     return {"target": rng.choice([3.0, 7.5, 11.25]), "pygmo_seed": rng.randrange(1, 100000),
-            "pipeline_seed": rng.choice([None, rng.randrange(1, 1000)]), "islands": rng.choice([1, 2, 3]),
-            "topology": rng.choice(["unconnected", "ring", "fully_connected"])}
+            "pipeline_seed": rng.choice([None, rng.randrange(1, 1000)]), "islands": islands, "topology": topology}
 
 
 CAL_CONFIGS = [("synchronous", None, None, False), ("threads", 1, 1, True), ("threads", 4, 3, True),
@@ -264,8 +271,10 @@ def body(ck: common.Check):
     cases = []
     for mode in ("product", "sequential", "custom"):
         for st in (None, "pipeline_seed", "model_seed"):
-            cases.append(("directed", gen_case(rng, mode=mode, stochastic=st or False)))
-    for _ in range(14 if quick else 220):
+            cases.append(("directed", gen_case(rng, mode=mode, stochastic=st or False, custom_kind="plain")))
+    for kind in ("w1", "shift", "both"):
+        cases.append(("directed", gen_case(rng, mode="custom", stochastic=False, custom_kind=kind)))
+    for _ in range(10 if quick else 150):
         cases.append(("random", gen_case(rng)))
     answers = LeanDriver("C07").batch([lean_request(c) for _, c in cases])
     second = []  # (case, observed completion order) for the assembly model
@@ -333,6 +342,11 @@ def body(ck: common.Check):
     for i in range(ncal):
         cc = gen_cal_case(rng)
         base = None
+        if cc["islands"] > 1 and cc["topology"] != "unconnected":
+            a, b = run_calibration(cc, *CAL_CONFIGS[0]), run_calibration(cc, *CAL_CONFIGS[0])
+            ck.case({"calibration": cc, "cfg": "repeat"}, nontrivial=False, stream="calibration-connected")
+            ck.count("calibration:connected-topology:" + ("repeatable" if a == b else "NOT-repeatable-under-one-schedule"))
+            continue
         for cfg in (CAL_CONFIGS if not quick else CAL_CONFIGS[:1] + [CAL_CONFIGS[1 + i % 4], CAL_CONFIGS[1 + (i + 1) % 4]]):
             res = run_calibration(cc, *cfg)
             ck.case({"calibration": cc, "cfg": cfg}, nontrivial="error" not in res, stream="calibration")
@@ -362,6 +376,8 @@ def body(ck: common.Check):
         "pandas orders each axis of the product-mode parameter array by sorted value; the harness passes that order to the model "
         "and the theorem createParams_product holds for every per-axis permutation",
         "value lists without repeated values; numbers compared by value",
+        "calibration clause: islands are unconnected or there is one island — with two or more connected islands pygmo's own "
+        "asynchronous migration makes two identical runs differ (counted in the distribution, not compared)",
     ]
     ck.trusted_base.append("C07: dask schedulers execute every task of the graph at least once and xarray.apply_ufunc stores each block "
                            "at its own position; pygmo's evolution is a deterministic function of its seeds and of the fitness values")
